@@ -1,11 +1,11 @@
 package main
 
 import (
-	"os"
 	"fmt"
 	"go/token"
 	"go/types"
 	"math/big"
+	"os"
 	"regexp"
 	"sort"
 	"strings"
@@ -48,6 +48,10 @@ func (ex *Exec) call(fr *Frame, cc *ssa.CallCommon, in ssa.Instruction, st *Stat
 		cur = c.And(cur, ok)
 		if named, ok := cc.Value.Type().(*types.Named); ok && named.Obj().Pkg() != nil {
 			key := named.Obj().Pkg().Path() + "." + named.Obj().Name() + "." + cc.Method.Name()
+			if key == "io.Writer.Write" && ex.tokensOn() && len(args) == 1 && args[0].Tok != nil {
+				// bytes of a known escape sequence written straight to the terminal
+				ex.applyToken(st, args[0].Tok)
+			}
 			if r, ok := ex.externAttrCall(key, append([]Val{recv}, args...), resT); ok {
 				return r, cur
 			}
@@ -120,7 +124,26 @@ func (ex *Exec) callStatic(fr *Frame, callee *ssa.Function, cc *ssa.CallCommon, 
 		// (a module function declared a fixed function of its arguments, e.g. a String method)
 		return r, cur
 	}
+	if kind, _ := sinkKind(callee); kind != "" && ex.tokensOn() && ex.W.inModule(pkgOf(callee)) && len(callee.Blocks) > 0 {
+		// an output sink of the module that has a contract of its own (the buffered writer's prologue): first what
+		// the contract says the call does besides passing its argument on, then the argument's own sequence
+		if pc := ex.Prog.ContractsFor(callee); pc != nil {
+			if fc := pc.Funcs[localKey(callee)]; fc != nil && hasSpec(fc) {
+				r, cur2 := ex.contractCall(fr, callee, fc, pc, args, st, cur, in, mkRes)
+				ex.tokenCall(fr, callee, cc, args, st, func(string) Val { return r })
+				return r, cur2
+			}
+		}
+	}
 	if r, ok := ex.tokenCall(fr, callee, cc, args, st, mkRes); ok {
+		if !ex.W.inModule(pkgOf(callee)) {
+			// an output sink outside the module may also have a declared contract (ghost length of a buffer, ...)
+			if r2, ncur, ok2 := ex.externFuncCall(fr, externKey(callee), args, st, cur, in, func(cur *smt.Term) (Val, *smt.Term) {
+				return r, cur
+			}); ok2 {
+				return r2, ncur
+			}
+		}
 		return r, cur
 	}
 	if !ex.W.inModule(pkgOf(callee)) || len(callee.Blocks) == 0 || opaquePkg(pkgOf(callee)) {
@@ -300,6 +323,40 @@ func (ex *Exec) externContracts() []*PkgContracts {
 		}
 	}
 	return out
+}
+
+// keepsGhost: some postcondition of the contract has the top-level conjunct g() == old(g()) (g: pen, trow, tcol).
+func keepsGhost(fc *FuncContract, g string) bool {
+	isPen := func(e Expr) bool {
+		c, ok := e.(*ECall)
+		if !ok || len(c.Args) != 0 {
+			return false
+		}
+		id, ok := c.Fun.(*EIdent)
+		return ok && id.Name == g
+	}
+	var conj func(e Expr) bool
+	conj = func(e Expr) bool {
+		b, ok := e.(*EBinary)
+		if !ok {
+			return false
+		}
+		if b.Op == "&&" {
+			return conj(b.X) || conj(b.Y)
+		}
+		if b.Op == "==" {
+			if o, ok := b.Y.(*EOld); ok && isPen(b.X) && isPen(o.X) {
+				return true
+			}
+		}
+		return false
+	}
+	for _, cl := range fc.Clauses {
+		if cl.Kind == "ensures" && conj(cl.E) {
+			return true
+		}
+	}
+	return false
 }
 
 // externAttrCall: `extern attr` declares the call a fixed function of receiver and arguments.
@@ -931,11 +988,31 @@ func (ex *Exec) contractCall(fr *Frame, callee *ssa.Function, fc *FuncContract, 
 			}
 		}
 	}
+	// a callee whose (proved) postcondition says the pen is what it was: the caller keeps the pen term instead of an
+	// unknown pen equated to it (long chains of such equalities are what the solvers are worst at)
+	if ex.tokensOn() {
+		for _, kk := range []struct {
+			name string
+			key  *HeapKey
+		}{{"pen", ex.penKey()}, {"trow", ex.trowKey()}, {"tcol", ex.tcolKey()}} {
+			if keepsGhost(fc, kk.name) {
+				kept, key := ex.heapGet(st, kk.key), kk.key
+				defer func() { st.heap[key.Name] = kept }()
+			}
+		}
+	}
 	if explicit && len(fc.Logs) == 0 {
 		// ghost logs are outside modifies clauses: a callee that (transitively) logs changes them
 		for _, k := range ex.Prog.ModSummary(callee).sortedKeys() {
-			if strings.HasPrefix(k, "L:") || strings.HasPrefix(k, "N:") || strings.HasPrefix(k, "X:") {
+			if strings.HasPrefix(k, "L:") || strings.HasPrefix(k, "N:") || strings.HasPrefix(k, "X:") || strings.HasPrefix(k, "Z:") {
 				if hk := ex.Prog.KeyInfo(ex, k); hk != nil {
+					if strings.HasPrefix(k, "Z:") && fc.OwnGhosts && hk.Sort.IsArray() {
+						before := ex.heapGet(st, hk)
+						ex.havocKey(st, hk)
+						p := c.Var("p!g", smt.Int)
+						ex.assume(c.Quant("forall", []*smt.Term{p}, c.Implies(c.And(c.Le(c.IntLit(0), p), c.Lt(p, pre.brk)), c.Eq(c.Select(st.heap[hk.Name], p), c.Select(before, p)))))
+						continue
+					}
 					ex.havocKey(st, hk)
 				}
 			}
@@ -966,8 +1043,44 @@ func (ex *Exec) contractCall(fr *Frame, callee *ssa.Function, fc *FuncContract, 
 		if cl.Kind != "ensures" {
 			continue
 		}
+		if ex.FC != nil && ex.FC.Uses != nil {
+			if ls, ok := ex.FC.Uses[localKey(callee)]; ok {
+				keep := false
+				for _, l := range ls {
+					keep = keep || l == cl.Label
+				}
+				if !keep {
+					continue
+				}
+			}
+		}
 		nens++
 		ex.assume(c.Implies(cur, ex.evalBool(envPost, cl.E, cl)))
+	}
+	if fc.Deterministic != "" && res.Tm != nil {
+		var ts []*smt.Term
+		var sorts []smt.Sort
+		okArgs := true
+		for _, a := range args {
+			tm := a.Tm
+			if tm == nil {
+				okArgs = false
+				break
+			}
+			ts = append(ts, tm)
+			sorts = append(sorts, tm.Sort)
+		}
+		if okArgs {
+			name := "uf_" + fc.Deterministic
+			c.DeclareFun(name, sorts, res.Tm.Sort)
+			if isUnsigned(res.T) {
+				if ex.unsignedUF == nil {
+					ex.unsignedUF = map[string]bool{}
+				}
+				ex.unsignedUF[name] = true
+			}
+			ex.assume(c.Implies(cur, c.Eq(res.Tm, c.App(name, res.Tm.Sort, ts...))))
+		}
 	}
 	if nens > 0 && ex.quiet == 0 && ex.noCover == 0 && !cur.IsFalse() {
 		// vacuity guard: the callee's postcondition must not make the continuation unreachable
